@@ -6,7 +6,6 @@ import F1Verif.Generated.Facts
 import F1Verif.Expected
 namespace F1.Props.FactsC06
 
-theorem fact_run_Do : F1.Generated.skel_run_Do = F1.Expected.skel_run_Do := by rfl
 theorem fact_run_run : F1.Generated.skel_run_run = F1.Expected.skel_run_run := by rfl
 theorem fact_run_teardown : F1.Generated.skel_run_teardown = F1.Expected.skel_run_teardown := by rfl
 theorem fact_run_reportSetupFailure : F1.Generated.skel_run_reportSetupFailure = F1.Expected.skel_run_reportSetupFailure := by rfl
